@@ -254,7 +254,7 @@ type GVal struct {
 	opaque string
 }
 
-func gPoly(p Poly) GVal      { return GVal{terms: []gTerm{{gAny, p}}} }
+func gPoly(p Poly) GVal       { return GVal{terms: []gTerm{{gAny, p}}} }
 func gOpaque(why string) GVal { return GVal{opaque: why} }
 
 func (v GVal) ok() bool { return v.opaque == "" && len(v.terms) > 0 }
